@@ -67,11 +67,17 @@ def deviations(sched: List[Dict[str, Any]], bound: int, tier: str) -> List[List[
     for i in range(len(sched)):
         for slot in ("R1", "R2", "K", "L"):  # L: the logger is waited for and written on the manager's blocking path
             singles.append(("nw", i, slot))
+        # a receiver that select() still reports writable but whose send buffer has room for 100 bytes only (a blocking send
+        # waits; a non-blocking one would write a part of the frame)
+        singles.append(("cong", i, "R1"))
+        singles.append(("cong", i, "L"))
     res = [sched]
     for k in range(1, bound + 1):
         for combo in itertools.combinations(singles, k):
             if len({(c[0], c[1]) for c in combo}) < len(combo):
                 continue
+            if k > 1 and any(c[0] == "cong" for c in combo):
+                continue  # the congested receiver is explored as a single deviation only
             s2 = [dict(st) for st in sched] + [{"inj": [0, 0], "order": 0, "tail": True}]
             for kind, i, arg in combo:
                 st = s2[i]
@@ -79,6 +85,8 @@ def deviations(sched: List[Dict[str, Any]], bound: int, tier: str) -> List[List[
                     st["tick"] = arg
                 elif kind == "ctl":
                     st["ctl"] = True
+                elif kind == "cong":
+                    st["cong"] = st.get("cong", []) + [arg]
                 else:
                     st["nw"] = st.get("nw", []) + [arg]
             res.append(s2)
@@ -175,7 +183,11 @@ def execute(case) -> Dict[str, Any]:
             order = st["order"]
             # K's control frame adds a ready socket: service order index refers to the ready list as the manager
             # builds it (connection order P1, P2, ..., K)
+            for slot in st.get("cong", []):
+                w.clients[slot].mgr_side.send_free = 100
             w.step(order, st.get("nw", []))
+            for slot in st.get("cong", []):
+                w.clients[slot].mgr_side.send_free = None
             if not w.alive:
                 problems.append({"kind": "manager-" + (w.exit or ("?",))[0], "detail": str((w.exit or ("", ""))[1:])[:600]})
                 break
